@@ -519,12 +519,20 @@ class AnyMatches(Matcher):
         return {}
 
 
+def _ends_with_anchor(pattern: str) -> bool:
+    """Returns true if ``pattern`` ends with a ``$`` that is not escaped by a backslash."""
+    if not pattern.endswith("$"):
+        return False
+    body = pattern[:-1]
+    return (len(body) - len(body.rstrip("\\"))) % 2 == 0
+
+
 class HostMatches(Matcher):
     """Matches requests from hosts specified by ``host_pattern`` regex."""
 
     def __init__(self, host_pattern: str | Pattern) -> None:
         if isinstance(host_pattern, basestring_type):
-            if not host_pattern.endswith("$"):
+            if not _ends_with_anchor(host_pattern):
                 host_pattern += "$"
             self.host_pattern = re.compile(host_pattern)
         else:
@@ -559,7 +567,7 @@ class PathMatches(Matcher):
 
     def __init__(self, path_pattern: str | Pattern) -> None:
         if isinstance(path_pattern, basestring_type):
-            if not path_pattern.endswith("$"):
+            if not _ends_with_anchor(path_pattern):
                 path_pattern += "$"
             self.regex = re.compile(path_pattern)
         else:
@@ -619,7 +627,7 @@ class PathMatches(Matcher):
         pattern = self.regex.pattern
         if pattern.startswith("^"):
             pattern = pattern[1:]
-        if pattern.endswith("$"):
+        if _ends_with_anchor(pattern):
             pattern = pattern[:-1]
 
         if self.regex.groups != pattern.count("("):
